@@ -20,30 +20,119 @@ if VERIF not in sys.path:
     sys.path.insert(0, VERIF)
 
 
+def _plain(v, depth=0):
+    """plain data: what the comparison is meaningful for"""
+    import enum
+    if isinstance(v, (int, str, bool, float, type(None), bytes, enum.Enum)):
+        return True
+    if depth < 4 and isinstance(v, (list, tuple)):
+        return all(_plain(x, depth + 1) for x in v)
+    if depth < 4 and isinstance(v, dict):
+        return all(_plain(k, depth + 1) and _plain(x, depth + 1) for k, x in v.items())
+    return False
+
+
 def _same(a, b, depth=0):
-    if depth > 4:
-        return True
-    if type(a) is not type(b):
-        return type(a).__name__ == type(b).__name__ and type(a).__name__.startswith('Stub_')
-    if type(a).__name__ in ('_Anything',) or type(a).__name__.startswith('Stub_'):
-        return True
-    if isinstance(a, (int, str, bool, float, type(None), bytes)):
-        return a == b
-    if isinstance(a, (list, tuple)):
+    """Comparison of the two results.  Plain data is compared exactly; for other objects the classes and, as far
+    as they are plain data, the attributes are compared (functions, stubs and objects of the engine are not)."""
+    if isinstance(a, str) and isinstance(b, str) and (
+            'Traceback (most recent call last)' in a or 'Traceback (most recent call last)' in b or a == '' or b == ''):
+        return True        # texts of tracebacks differ between the interpreter and CPython (or are modelled empty)
+    if hasattr(a, '__next__') and hasattr(b, '__next__'):
+        # two iterators (e.g. the native `enumerate` and the interpreter's lazy enumerate): the same items
+        try:
+            return _same(list(a), list(b), depth + 1)
+        except Exception:
+            return False
+    if _plain(a) and _plain(b):
+        return type(a) is type(b) and a == b
+    if _plain(a) != _plain(b):
+        return False
+    if isinstance(a, (list, tuple)) and isinstance(b, (list, tuple)):
         return len(a) == len(b) and all(_same(x, y, depth + 1) for x, y in zip(a, b))
-    if isinstance(a, dict):
-        return set(a) == set(b) and all(_same(a[k], b[k], depth + 1) for k in a)
+    na, nb = type(a).__name__, type(b).__name__
+    if na.startswith('Stub_') or nb.startswith('Stub_') or na in ('_Anything',) or nb in ('_Anything',):
+        return True
+    callables = ('function', 'method', 'Closure', 'BoundMethod', 'builtin_function_or_method', 'partial')
+    if na in callables or nb in callables:
+        return (na in callables) == (nb in callables)
+    if na != nb:
+        return False
+    if depth > 3:
+        return True
     da, db = getattr(a, '__dict__', None), getattr(b, '__dict__', None)
     if isinstance(da, dict) and isinstance(db, dict):
         return set(da) == set(db) and all(_same(da[k], db[k], depth + 1) for k in da)
     return True
 
 
+class _Blocked(Exception):
+    """a primitive with effects outside the process was reached during the native run"""
+
+
+def _block_effects():
+    """The native side of the cross-check must not touch the world: processes, the file system (outside the
+    scratch cwd it runs in), the working directory.  Blocked primitives raise _Blocked; such runs are skipped."""
+    import os
+    import shutil
+    import subprocess
+    import pathlib
+    import tempfile
+
+    def blocked(*a, **k):
+        raise _Blocked()
+
+    for mod, names in ((subprocess, ('call', 'run', 'Popen', 'check_call', 'check_output')),
+                       (shutil, ('rmtree', 'copy', 'copy2', 'copytree', 'move', 'copyfile')),
+                       (os, ('chdir', 'remove', 'unlink', 'rmdir', 'mkdir', 'makedirs', 'rename', 'replace', 'system',
+                             'chmod', 'symlink', 'link', 'removedirs', 'utime', 'truncate', 'open')),
+                       (tempfile, ('mkdtemp', 'mkstemp'))):
+        for n in names:
+            if hasattr(mod, n):
+                setattr(mod, n, blocked)
+    for n in ('mkdir', 'touch', 'unlink', 'rmdir', 'rename', 'replace', 'chmod', 'symlink_to', 'write_text',
+              'write_bytes', 'open', 'hardlink_to'):
+        if hasattr(pathlib.Path, n):
+            setattr(pathlib.Path, n, blocked)
+    import builtins
+    real_open = builtins.open
+
+    def guarded_open(file, mode='r', *a, **k):
+        if any(c in mode for c in 'wax+'):
+            raise _Blocked()
+        return real_open(file, mode, *a, **k)
+
+    builtins.open = guarded_open
+    import io
+    io.open = guarded_open
+
+
 def run(prop, runs, seed):
+    import os
+    import tempfile
+    # NOTE: blocks effectful primitives for the rest of this process: run it in a process of its own
+    # (python3-vt -m pyvc.crosscheck ...; pyvc.check starts it as a subprocess)
+    scratch = tempfile.mkdtemp(prefix='pyvc-crosscheck-')
+    here = os.getcwd()
+    real_chdir, real_rmdir = os.chdir, os.rmdir
+    real_chdir(scratch)
+    try:
+        _block_effects()
+        return _run(prop, runs, seed)
+    finally:
+        real_chdir(here)
+        try:
+            real_rmdir(scratch)
+        except Exception:
+            pass
+
+
+def _run(prop, runs, seed):
     from . import check, frontend
     from .api import RandomCtx, NoConcrete, Ty
     from .interp import Interp, PyRaise, GenObj
     from .path import PathState, Unsupported, PathAbort
+    from .values import Sym
     mods = check.load_modules()
     reg = check.build_registry(mods)
     total = 0
@@ -52,6 +141,9 @@ def run(prop, runs, seed):
     failures = []
     for q, c in reg.contracts.items():
         if prop not in c.props or c.trusted or c.func is None:
+            continue
+        if getattr(getattr(c, 'module', None), 'crosscheck', True) is False:
+            skipped[q] = 'module opted out (functions with effects on the world)'
             continue
         for k in range(runs):
             rnd = random.Random('%s/%s/%d' % (seed, q, k))
@@ -68,6 +160,14 @@ def run(prop, runs, seed):
                 skipped[q] = 'cannot build inputs: %r' % (e,)
                 break
             total += 1
+            if c.requires is not None:
+                # only inputs inside the contract's precondition (evaluated natively; ghosts: not available)
+                try:
+                    rn = c.requires.__code__.co_varnames[:c.requires.__code__.co_argcount]
+                    if all(n in args1 for n in rn) and not c.requires(*[args1[n] for n in rn]):
+                        continue
+                except Exception:
+                    continue
             code = c.func.__code__
             names = list(code.co_varnames[:code.co_argcount + code.co_kwonlyargcount])
             try:
@@ -81,7 +181,13 @@ def run(prop, runs, seed):
                 if isinstance(r1, types.GeneratorType):
                     r1 = list(r1)
                 o1 = ('return', r1)
+            except _Blocked:
+                skipped[q] = 'reaches a primitive with effects outside the process'
+                break
             except Exception as e:
+                if isinstance(e.__context__, _Blocked) or isinstance(e.__cause__, _Blocked):
+                    skipped[q] = 'reaches a primitive with effects outside the process'
+                    break
                 o1 = ('raise', type(e))
             st = PathState([], {})
             interp = Interp(st, reg)
@@ -105,6 +211,17 @@ def run(prop, runs, seed):
                 break
             finally:
                 reg.by_func = saved
+            world = [m for m in st.used_models if m.split(':')[0].split('.')[0] in
+                     ('os', 'posix', 'posixpath', 'shutil', 'pathlib', 'subprocess', 'tempfile', 'io', 'stat', 'glob',
+                      'filecmp', 're', 'time', 'datetime', 'shlex', 'xml')
+                     or m.startswith('builtins:open') or m.startswith('builtins:eval')]
+            from .values import contains_sym as _cs
+            if world or (o2[0] == 'return' and _cs(o2[1], 4)):
+                skipped[q] = 'interpreted through an assumed contract of the platform (%s)' % ', '.join(sorted(world)[:3])
+                break
+            if (o1[0] == 'raise' and o1[1] in (AttributeError, TypeError, NotImplementedError)) or \
+                    (o2[0] == 'raise' and o2[1] in (AttributeError, TypeError, NotImplementedError)):
+                continue      # the random input is outside what the shapes' stubs can answer
             compared += 1
             if o1[0] != o2[0] or (o1[0] == 'raise' and o1[1] is not o2[1]) or \
                     (o1[0] == 'return' and not _same(o1[1], o2[1])):
@@ -116,6 +233,7 @@ def main():
     ap = argparse.ArgumentParser()
     ap.add_argument('prop')
     ap.add_argument('--runs', type=int, default=20)
+    ap.add_argument('--json', action='store_true')
     args = ap.parse_args()
     seed = int(os.environ.get('VERIF_SEED', '0') or 0)
     out = {}
@@ -129,6 +247,11 @@ def main():
     t.start()
     t.join()
     r = out['r']
+    if args.json:
+        import json
+        print(json.dumps({'compared': r['compared'], 'failures': [repr(f)[:600] for f in r['failures']],
+                          'skipped': r['skipped']}))
+        return 1 if r['failures'] else 0
     print('interpreter cross-check %s: %d runs compared, %d failures, %d functions skipped'
           % (args.prop, r['compared'], len(r['failures']), len(r['skipped'])))
     for q, why in sorted(r['skipped'].items()):
